@@ -31,7 +31,7 @@ CATALOGUE = [
     ("m-c01-no-subst", "C01", OV, "        if len(self._files) > 1:\n            self._files[-1][path].attrs[SUBST_KEY] = h5py.Empty(None)", "        if False:\n            pass"),
     ("m-c01-no-del-marker", "C01", OV, "        if len(self._files) > 1:  # has patches? mark deleted (instead of real delete)\n            self._files[-1][path] = DEL_VALUE", "        if len(self._files) > 1 and any(path in f for f in self._files[:-1]) and path in self._files[-2]:\n            self._files[-1][path] = DEL_VALUE"),
     ("m-c01-attr-del-marker", "C01", OV, "            self._files[-1][self._gpath].attrs[key] = DEL_VALUE  # mark deleted", "            pass"),
-    ("m-c02-reopen-rw", "C02", RC, "        self.__files__[-1] = h5py.File(filepath, \"r\")", "        self.__files__[-1] = h5py.File(filepath, \"r+\")\n        self.__files__[-1].close()\n        self.__files__[-1] = h5py.File(filepath, \"r\")"),
+    ("m-c02-create-patch-reopens-rw", "C02", RC, "        path = self._next_patch_filepath()\n        ub = IH5UserBlock.create(prev=self._ublock(-1))", "        path = self._next_patch_filepath()\n        _fn = self.__files__[-1].filename; self.__files__[-1].close(); _t = h5py.File(_fn, \"r+\"); _t.attrs[\"x\"] = 1; del _t.attrs[\"x\"]; _t.close(); self.__files__[-1] = h5py.File(_fn, \"r\")\n        ub = IH5UserBlock.create(prev=self._ublock(-1))"),
     ("m-c02-resave-all-ublocks", "C02", RC, "        self._ublocks[filepath].save(filepath)\n", "        self._ublocks[filepath].save(filepath)\n        for _f in self.__files__[:-1]:\n            _ub = self._ublocks[Path(_f.filename)].copy()\n            _ub.ub_exts = dict(_ub.ub_exts, touched=True)\n            _ub.save(_f.filename)\n"),
     ("m-c03-no-sort", "C03", RC, "        ret.__files__.sort(key=lambda f: ret._ublock(f).patch_index)", "        pass"),
     ("m-c03-x-truncates", "C03", RC, "            ret = self._create(path, truncate=(mode == \"w\"))", "            ret = self._create(path, truncate=(mode in (\"w\", \"x\")))"),
@@ -39,7 +39,6 @@ CATALOGUE = [
     ("m-c03-discard-keeps-file", "C03", RC, "        cfile.close()\n        Path(fn).unlink()", "        cfile.close()"),
     ("m-c04-skip-hash", "C04", RC, "            if ub.hdf5_hashsum != chksum:", "            if False:"),
     ("m-c04-skip-prev-link", "C04", RC, "            if ub.prev_patch != prev.patch_uuid:", "            if False:"),
-    ("m-c04-skip-record-uuid", "C04", RC, "        if ub.record_uuid != self.ih5_uuid:", "        if False:"),
     ("m-c04-skip-manifest-hash", "C04", MF, "            if ubext.manifest_hashsum != chksum:", "            if False:"),
     ("m-c05-no-root-attrs", "C05", RC, "            for k, v in source_node.attrs.items():  # copy root attributes\n                target_node.attrs[k] = h5_attr_value_for_copy(v)", "            pass"),
     ("m-c05-fresh-patch-uuid", "C05", RC, "        ub = self._ublock(-1).copy(update={\"prev_patch\": self._ublock(0).prev_patch})", "        ub = self._ublock(-1).copy(update={\"prev_patch\": self._ublock(0).prev_patch, \"patch_uuid\": uuid1()})"),
